@@ -829,11 +829,13 @@ func (m *mappedFile) newCounter(name string) (v *atomic.Uint64, m1 *mappedFile, 
 			}
 			steps++
 			ename, enext, v, ok := m.entryAt(off)
-			if !ok {
+			for !ok {
 				// The record may lie in a part of the file that another
 				// process added after we mapped it (it can only have been
 				// allocated after our own record). Re-map, as for the
-				// first lookup above, and look at it again.
+				// first lookup above, and look at it again. (This must not
+				// go around the outer loop: the cycle detection above
+				// would take the second visit of off for a cycle.)
 				if remaps >= 10 || int64(m.load32(m.hdrLen+limitOff)) <= int64(len(m.mapping.Data)) {
 					return nil, nil, errCorrupt
 				}
@@ -852,7 +854,7 @@ func (m *mappedFile) newCounter(name string) (v *atomic.Uint64, m1 *mappedFile, 
 				// Our own record, seen through the new mapping.
 				next = (*atomic.Uint32)(unsafe.Pointer(&m.mapping.Data[start+12]))
 				ownV = (*atomic.Uint64)(unsafe.Pointer(&m.mapping.Data[start]))
-				continue
+				ename, enext, v, ok = m.entryAt(off)
 			}
 			if string(ename) == name {
 				next.Store(^uint32(0)) // mark ours as dead
